@@ -538,8 +538,11 @@ func (r *pairRun) atEnd(stepCap bool) {
 		pendingData := s.SndUna != s.SndNxt || s.SndNxt != s.SndNxtList || s.SndQueueLen > 0
 		if pendingData && !errored(s, p.sd) {
 			key := "stall"
-			if s.SndWnd == 0 {
-				key = "stall-zero-window" // D6: no persist timer
+			finOnly := s.SndClosed && s.SndUna == s.SndNxt && s.SndNxtList-s.SndNxt == 1 && s.SndQueueLen == 0
+			if s.SndWnd == 0 && !finOnly {
+				key = "stall-zero-window" // D6: no persist timer (data waits for a window that never reopens)
+			} else if finOnly {
+				key = "stall-fin-withheld" // everything is acknowledged, only the FIN is left: it needs no window
 			}
 			r.fail("C02", "idle-with-work", key, "the world is idle (nothing in flight, no timer pending, no application call possible) but endpoint %s still has work: sndUna=%d sndNxt=%d queued-to=%d peer window=%d timer enabled=%v state=%d; dropped frames=%d early timers=%v",
 				p.sd.name, s.SndUna, s.SndNxt, s.SndNxtList, s.SndWnd, s.TimerEnabled, s.State, r.dropped, r.earlyTimer)
